@@ -206,6 +206,72 @@ def reload_stratum(chk):
                                       "a disabled enforcer did not allow a request after the model/policy was reloaded")
                         break
     chk.extra.setdefault("strata_extra", {})["disabled_reload_cases"] = n
+    model_replaced_stratum(chk)
+
+
+def model_replaced_stratum(chk):
+    """'the MODEL's policy-effect expression' is that of the model the enforcer holds NOW: after set_model(m2), or after the
+    model file was rewritten and load_model() + load_policy() ran, every decision (and explanation) equals that of a fresh
+    enforcer built on the new model with the same policy - for every ordered pair of the documented effect expressions."""
+    import os
+    import tempfile
+    import casbin
+    from ..enforce_cases import MODEL, PLAIN_MATCHER
+    rows = "p, alice, data1, read, deny, t0\np, alice, data1, read, allow, t1\np, bob, data2, write, allow, t2\np, carol, data1, read, maybe, t3\n"
+    reqs = [("alice", "data1", "read"), ("bob", "data2", "write"), ("carol", "data1", "read"), ("nobody", "x", "y")]
+    effs = [(ef, ix) for ef, ix in EFFECTS if not ef.startswith("subjectPriority")]
+    n = 0
+
+    def ask(e):
+        out = []
+        for req in reqs:
+            try:
+                g = e.enforce_ex(*req)
+                out.append([bool(g[0]), list(g[1]), bool(e.enforce(*req))])
+            except Exception as exc:  # noqa
+                out.append(["raise", type(exc).__name__])
+        return out
+
+    with tempfile.TemporaryDirectory(prefix="c01m_") as d:
+        for policy_text in ("", rows):
+            pol = os.path.join(d, "policy.csv")
+            with open(pol, "w") as f:
+                f.write(policy_text)
+            for e1, i1 in effs:
+                for e2, i2 in effs:
+                    if i1 == i2:
+                        continue
+                    t1 = MODEL.format(pdef="sub, obj, act, eft, tag", effect=e1, e2="", matcher=PLAIN_MATCHER)
+                    t2 = MODEL.format(pdef="sub, obj, act, eft, tag", effect=e2, e2="", matcher=PLAIN_MATCHER)
+                    for how in ("set_model", "load_model"):
+                        mp = os.path.join(d, "model.conf")
+                        with open(mp, "w") as f:
+                            f.write(t1)
+                        e = casbin.Enforcer(mp, pol)
+                        ask(e)                                    # the enforcer has decided under the first model
+                        if how == "set_model":
+                            e.set_model(casbin.Enforcer.new_model(text=t2))
+                        else:
+                            with open(mp, "w") as f:
+                                f.write(t2)
+                            e.load_model()
+                        e.load_policy()
+                        mp2 = os.path.join(d, "model2.conf")
+                        with open(mp2, "w") as f:
+                            f.write(t2)
+                        want = ask(casbin.Enforcer(mp2, pol))
+                        got = ask(e)
+                        n += 1
+                        chk.count(("model-replaced", how, i1, i2, bool(policy_text)))
+                        if got != want:
+                            k = next(i for i in range(len(reqs)) if got[i] != want[i])
+                            chk.spec_fail(dict(stratum="model-replaced", how=how, first_effect=e1, new_effect=e2, policy=policy_text,
+                                               request=list(reqs[k])), got[k], want[k],
+                                          "after the model was replaced the decision is not the new model's effect combination "
+                                          "(differs from a fresh enforcer on the new model and the same policy)")
+                            chk.extra.setdefault("strata_extra", {})["model_replaced_cases"] = n
+                            return
+    chk.extra.setdefault("strata_extra", {})["model_replaced_cases"] = n
 
 
 # ====================================================================================================================
@@ -548,6 +614,17 @@ def replay(chk, explain):
             print(f"VIOLATION property={chk.prop} replay={chk.replay_file}")
             sys.exit(1)
         print("replay passes: implementation agrees with the spec on every ask of this history")
+        sys.exit(0)
+    if c.get("stratum") in ("model-replaced", "disabled-survives-reload"):
+        # these strata are cheap and deterministic: re-run them and report what they report
+        chk.spec_failures = []
+        (model_replaced_stratum if c["stratum"] == "model-replaced" else reload_stratum)(chk)
+        hit = [f for f in chk.spec_failures if f["case"].get("stratum") == c["stratum"]]
+        if hit:
+            print("replay:", json.dumps(hit[0])[:700])
+            print(f"VIOLATION property={chk.prop} replay={chk.replay_file}")
+            sys.exit(1)
+        print("replay passes: the stratum reports nothing on this tree")
         sys.exit(0)
     if "outcomes" not in c:
         print("replay file names a broken theorem/correspondence, not an input:", json.dumps(rec.get("broken"))[:800])
